@@ -2,6 +2,7 @@ package main
 
 import (
 	"fmt"
+	"os"
 	"go/ast"
 	"go/token"
 	"go/types"
@@ -602,6 +603,35 @@ type writeSet struct {
 	// heapBases[key]: the (simple) base expressions through which key is written; nil entry = unknown bases
 	heapBases map[string][]ast.Expr
 	heapUnk   map[string]bool
+	// what every heapAll source of this write set promises to preserve (empty prefix: nothing)
+	presSet    bool
+	presPrefix string
+	presExcept []string
+}
+
+// havocAllWith records a source of arbitrary heap effects that preserves the fields pfx* minus exc.
+func (ws *writeSet) havocAllWith(pfx string, exc []string) {
+	ws.heapAll = true
+	if !ws.presSet {
+		ws.presSet, ws.presPrefix, ws.presExcept = true, pfx, append([]string(nil), exc...)
+		return
+	}
+	if ws.presPrefix != pfx {
+		ws.presPrefix, ws.presExcept = "", nil
+		return
+	}
+	// union of exceptions
+	for _, e := range exc {
+		found := false
+		for _, e2 := range ws.presExcept {
+			if e2 == e {
+				found = true
+			}
+		}
+		if !found {
+			ws.presExcept = append(ws.presExcept, e)
+		}
+	}
 }
 
 func (ws *writeSet) addBase(key string, base ast.Expr) {
@@ -791,6 +821,16 @@ func (fv *FuncVerifier) callWrites(env *Env, call *ast.CallExpr, ws *writeSet, d
 				return
 			case "fx":
 				return
+			case "syncmap":
+				for _, k := range []string{"$syncmap:keys", "$syncmap:vals"} {
+					ws.heap[k] = true
+					if sel, ok := fun.(*ast.SelectorExpr); ok {
+						ws.addBase(k, sel.X)
+					} else {
+						ws.addBase(k, nil)
+					}
+				}
+				return
 			case "scanner":
 				ws.heap["$scan:pos"] = true
 				if sel, ok := fun.(*ast.SelectorExpr); ok {
@@ -820,7 +860,8 @@ func (fv *FuncVerifier) callWrites(env *Env, call *ast.CallExpr, ws *writeSet, d
 					for _, tgt := range splitTopLevel(cl.Text, ',') {
 						tgt = strings.TrimSpace(tgt)
 						if tgt == "*" {
-							ws.heapAll = true
+							pfx, exc := preservesOf(c)
+							ws.havocAllWith(pfx, exc)
 							fv.mapArgWrites(env, call, ws, depth)
 							continue
 						}
@@ -872,9 +913,23 @@ func (fv *FuncVerifier) callWrites(env *Env, call *ast.CallExpr, ws *writeSet, d
 			if ic := fv.prog.IfaceContracts[ifaceKey(fn)]; ic != nil && ic.Has("pure", 0) {
 				return
 			}
+			if ic := fv.prog.IfaceContracts[ifaceKey(fn)]; ic != nil && (ic.Has("calllog", 0) || ic.Has("preserves", 0)) {
+				pfx, exc := preservesOf(ic)
+				ws.havocAllWith(pfx, exc)
+				fv.mapArgWrites(env, call, ws, depth)
+				return
+			}
 		}
 	}
-	ws.heapAll = true
+	if _, isFunc := callee.(*types.Func); !isFunc && fv.fn.Contr != nil && fv.fn.Contr.Has("fnvalue-calllog", 0) {
+		pfx, exc := preservesOf(fv.fn.Contr)
+		ws.havocAllWith(pfx, exc)
+	} else {
+		if os.Getenv("GOVC_DEBUG") != "" {
+			fmt.Fprintln(os.Stderr, "DEBUG non-preserving call in write set:", exprString(call.Fun), fv.pos(call.Pos()))
+		}
+		ws.havocAllWith("", nil)
+	}
 	fv.mapArgWrites(env, call, ws, depth)
 	for _, a := range call.Args {
 		if lit, ok := ast.Unparen(a).(*ast.FuncLit); ok {
@@ -998,13 +1053,17 @@ func (fv *FuncVerifier) applyHavoc(st *State, ws *writeSet) {
 		}
 	}
 	if ws.heapAll {
-		fv.havocAll(st)
-	} else {
-		for k := range ws.heap {
-			delete(st.heap, k)
-			fv.nfresh++
-			st.hmark[k] = fv.nfresh
+		if ws.presSet {
+			fv.havocAllExcept(st, ws.presPrefix, ws.presExcept)
+		} else {
+			fv.havocAll(st)
 		}
+	}
+	// fields the statement writes itself are forgotten even for objects that calls cannot touch
+	for k := range ws.heap {
+		delete(st.heap, k)
+		fv.nfresh++
+		st.hmark[k] = fv.nfresh
 	}
 	if ws.yields {
 		for _, g := range []string{"out", "out2", "outText", "stopped"} {
@@ -1070,6 +1129,7 @@ func (fv *FuncVerifier) runLoopR(st *State, env *Env, lc *loopCtx, label string,
 	for _, cl := range fv.fn.Contr.Get("assume", lc.ord, 0) {
 		head.Assume(fv.evalClause(head, cl, lc.bodyPos, lc.names, lc.entry))
 	}
+	fv.applyHints(head, lc)
 	var dec0 []Term
 	decs := fv.fn.Contr.Get("decreases", lc.ord, 0)
 	for _, cl := range decs {
